@@ -5,9 +5,11 @@ import (
 	"fmt"
 	"os"
 	"path/filepath"
+	"runtime"
 	"runtime/debug"
 	"sort"
 	"sync"
+	"time"
 )
 
 // Verdict values of one case.
@@ -188,6 +190,48 @@ func (w *W) Finish() {
 	w.write(Rec{T: "F"})
 	os.Remove(w.wal)
 	w.out.Close()
+}
+
+// AbortWith closes the open case as a violation, finishes the worker's log and ends the process: for monitors that
+// detect a state the workload cannot return from (goroutines blocked for good). The rest of the batch is not run.
+func (w *W) AbortWith(sig string, detail any) {
+	w.Violation(sig, detail)
+	w.Finish()
+	os.Exit(0)
+}
+
+// StallWatch is a bounded-progress monitor for concurrent workloads: while active() holds, progress() must change at least
+// once in every window. If it does not, the run is stuck (e.g. waiters on an event that will never come): the case is
+// closed as a violation with a dump of all goroutines. The window is long against the cost of one operation (micro- to
+// milliseconds), and the monitor lives in the same process, so a machine-wide pause stops it as well. stop() ends it.
+func (w *W) StallWatch(sig string, window time.Duration, progress func() int64, active func() bool, desc any) (stop func()) {
+	quit := make(chan struct{})
+	go func() {
+		last, since := progress(), time.Now()
+		t := time.NewTicker(time.Second)
+		defer t.Stop()
+		for {
+			select {
+			case <-quit:
+				return
+			case <-t.C:
+			}
+			if !active() {
+				last, since = progress(), time.Now()
+				continue
+			}
+			if p := progress(); p != last {
+				last, since = p, time.Now()
+				continue
+			}
+			if time.Since(since) >= window {
+				buf := make([]byte, 1<<20)
+				buf = buf[:runtime.Stack(buf, true)]
+				w.AbortWith(sig, map[string]any{"diff": fmt.Sprintf("no operation completed for %s although the workload is not finished (progress counter stuck at %d)", window, last), "run": desc, "goroutines": string(buf[:min(len(buf), 20000)])})
+			}
+		}
+	}()
+	return func() { close(quit) }
 }
 
 // Sub returns a fresh scratch sub-directory.
